@@ -342,12 +342,12 @@ def check_C16(rep, tier, seed):
         direct += 1
         rep.violation("oracle " + o["what"], {"failing_input_found": True, "correspondence": "K3",
                                               "input": {"case": o["case"], "observed": o["observed"]}})
-    for kind, m in k3_select(res, ["runner", "consumed"])[:3]:
+    # the terminal's run differs from Runner::new of the parameters last set / what is consumed while
+    # building differs from the model: the correspondence the C16 theorems rest on is broken
+    ind = [m for _, m in k3_select(res, ["runner", "consumed", "seqpar"])]
+    if ind and not direct and not bad and not fails:
+        corr_failure(rep, "K3(%s)" % ",".join(sorted(set(k for k, _ in k3_select(res, ["runner", "consumed", "seqpar"])))), ind, [], str)
         direct += 1
-        what = ("the terminal's run does not use Runner::new of the parameters last set" if kind == "runner"
-                else "source elements consumed while the computation was being built differ from the model's")
-        rep.violation(what, {"failing_input_found": True, "correspondence": "K3/" + kind,
-                             "input": {"case": m["case"], "implementation": m["impl"], "specification(model)": m["model"]}})
     other = [m for _, m in k3_select(res, ["clog"]) if not (m["model"] == "-" and m["impl"] != "-")]
     if other and not bad and not fails and not direct:
         corr_failure(rep, "K3(clog)", other, [], str)
